@@ -1,6 +1,7 @@
 """C15 - equivalent ways of writing a model give the same optimum.
 
-State space: base models (LP, SOCP, RO with an LDR over box / box+1-norm / box+2-norm / box+equality sets, DRO with
+State space: base models (LP, SOCP, RO with an LDR over box / box+1-norm / box+2-norm / box+equality sets, RO over boxes
+with exactly-zero upper / lower bounds and a one-sided bound, DRO with
 2 scenarios) x solver x EVERY subset of size <= 2 (thorough: <= 3) of the rewrite group R1..R9 of the statement,
 each active rewrite in each of its variants.  Every rewrite is applied by a builder that takes the spec and the
 set of active rewrites (rsmc/ref/c09c15_rewrite.py).  Oracle: the optimum of the rewritten model equals the optimum
@@ -23,11 +24,11 @@ ASSUMPTIONS = [
 ]
 TRUSTED = ['CPython', 'NumPy', 'the solvers behind rsome default / eco_solver / grb_solver, used on both sides']
 
-VARIANTS = {'R1': ['1'], 'R2': ['v', 'c', 'vc'], 'R3': ['neg', 'flip'], 'R4': ['1'], 'R5': ['lin', 'ninf'],
-            'R6': ['loop', 'elem'], 'R7': ['2', '0.5'], 'R8': ['args', 'gen', 'tup'], 'R9': ['1']}
-BASES = ['lp', 'socp', 'ro_box', 'ro_norm', 'ro_ball', 'ro_boxeq', 'dro']
+VARIANTS = {'R1': ['1'], 'R2': ['v', 'c', 'vc'], 'R3': ['neg', 'flip', 'sub'], 'R4': ['1'], 'R5': ['lin', 'ninf'],
+            'R6': ['loop', 'elem'], 'R7': ['2', '0.4', '2.5'], 'R8': ['args', 'gen', 'tup'], 'R9': ['1']}
+BASES = ['lp', 'socp', 'ro_box', 'ro_norm', 'ro_ball', 'ro_boxeq', 'ro_zbox', 'ro_zmir', 'dro']
 HOWS = {'lp': ['def', 'eco'], 'socp': ['eco', 'grb'], 'ro_box': ['def', 'eco'], 'ro_norm': ['def', 'eco'],
-        'ro_ball': ['eco'], 'ro_boxeq': ['def'], 'dro': ['def', 'eco']}
+        'ro_ball': ['eco'], 'ro_boxeq': ['def'], 'ro_zbox': ['def', 'eco'], 'ro_zmir': ['def'], 'dro': ['def', 'eco']}
 NOT_APPLICABLE = {('dro', 'R9')}
 
 
